@@ -121,6 +121,25 @@ CLAIMED = {
                  "TD errors of the update that consumed the most recent batch of that buffer, with no resampling in between.",
         "note": "Trusted: inverse-CDF property of cumsum/searchsorted, U[0,1). Not decided: floating-point ties of u*total with a cumulative sum, sampling frequencies.",
     },
+    "C09": {
+        "technique": "static analysis: whole-program scan of the call-graph closure of all training entry points for nondeterminism sources, seed-argument provenance of every RNG constructor / seeding call, element-type inference for iterated sets, confinement of time.* to the logging package; positive control snippet",
+        "level": "Decides the cause-level sentence of the property for the whole package: no global / OS randomness source, every RNG constructor and seeding call receives an argument built from parameters, literals and arithmetic, "
+                 "iterated sets contain integers by construction, wall-clock time is read only in rl_blox/logging. Expected violation count is zero, so a known-bad control snippet must match on every run.",
+        "note": "NOT decided: bit-identity of two runs (XLA, environment internals, float non-associativity). PRNG-key reuse is deliberately not a rule (deterministic). Trusted: unsalted int hashing, determinism of jax.random / numpy Generator.",
+    },
+    "C19": {
+        "technique": "static analysis: attribute-set symmetry of __getstate__ / __setstate__ against the dynamically-created-class attributes of __init__ along the MRO; structural rules for the pickle helper and the checkpoint writers / restore",
+        "level": "NECESSARY CONDITIONS ONLY: for all five buffer classes the keys removed from the pickled dict are exactly the namedtuple-type attributes and each is rebuilt with __init__'s expression after the dict is restored; default-pickled "
+                 "classes hold no unpicklable attribute; save_pickle dumps the split state and load_pickle merges on both branches; both checkpoint writers save the unfiltered state and wait; restore merges with the model's graphdef.",
+        "note": "The behavioural statement (bit-identical reload and identical continuation for every reachable buffer state, crash points, Orbax behaviour) is a runtime property and is NOT decided.",
+    },
+    "C20": {
+        "technique": "static analysis: interface completeness and argument forwarding of LoggerList against LoggerBase, per-path evaluation of record_stat, attribute write ownership of the counters, dominance ordering save -> wait -> list, normal form and state-update placement of the cadence guards",
+        "level": "Decides structure for all call sequences: LoggerList forwards every interface method with all arguments in order to every member; record_stat appends value and (episode, step, t) exactly once on every path with the documented "
+                 "defaults in the order get_stat indexes; counters are written only by start/stop; checkpoint paths are listed only after save+wait on the same path with the unfiltered state; Orbax guard is the wrap-or-gap predicate, last_step "
+                 "updated after the guard on every path, one save per record; StandardLogger counts then tests epoch % interval.",
+        "note": "NOT decided: arithmetic equivalence of the wrap-or-gap predicate with `a multiple of the interval was passed since the previous record` (hand argument in DESIGN.md), Orbax / filesystem behaviour.",
+    },
 }
 
 NOT_APPLICABLE = {}
